@@ -16,6 +16,20 @@ def all_targets():
     return ts
 
 
+def slim(failures, full=12, cap=400):
+    """all failures keep their label and replay scenario (distinct scenarios only); the first few keep the full record"""
+    out, seen = [], set()
+    for i, f in enumerate(failures):
+        key = json.dumps(f.get("scenario"), sort_keys=True, default=str)
+        if i >= full and key in seen:
+            continue
+        seen.add(key)
+        out.append(f if i < full else {"label": f["label"], "scenario": f.get("scenario"), "detail": (f.get("detail") or "")[:200] if isinstance(f.get("detail"), str) else None})
+        if len(out) >= cap:
+            break
+    return out
+
+
 def run_special(P, t):
     """targets that orchestrate several explorations themselves"""
     V = specutil.Verdicts(t["name"])
@@ -71,7 +85,7 @@ def run_target(P, t, time_budget=600):
     elif V.obligations == 0:
         status = "vacuous"
     return dict(name=t["name"], props=t["props"], status=status, why=why, what=t.get("what", ""), entry=f.name, mir_lines=f.nlines,
-                obligations=V.obligations, discharged=V.discharged, failures=V.failures[:12], nfailures=len(V.failures), paths=V.paths, witnesses=V.witnesses,
+                obligations=V.obligations, discharged=V.discharged, failures=slim(V.failures), nfailures=len(V.failures), paths=V.paths, witnesses=V.witnesses,
                 stats={k: v for k, v in stats.items() if k != "unsupported_msgs"}, inlined=sorted(used["inlined"]), modelled=sorted(used["modelled"]),
                 havocked=sorted(used["havocked"]), bounds=t.get("bounds", {}), solver_time=round(stats["solver_time"] + V.solver_time, 3),
                 solver_calls=stats["solver_calls"] + V.solver_calls, wall=round(time.time() - t0, 2))
